@@ -65,7 +65,9 @@ func (p *FinalLimitPlan) Batch(ctx *ExecuteCtx) ([][]Column, error) {
 			return nil, nil
 		}
 		if nrows <= restSkips {
+			// All rows of this batch are skipped
 			p.skips += nrows
+			rows = nil
 		} else {
 			p.skips += restSkips
 			rows = rows[restSkips:]
@@ -203,7 +205,9 @@ func (p *LimitPlan) Batch(ctx *ExecuteCtx) ([]KVPair, error) {
 			return nil, nil
 		}
 		if nrows <= restSkips {
+			// All rows of this batch are skipped
 			p.skips += nrows
+			rows = nil
 		} else {
 			p.skips += restSkips
 			rows = rows[restSkips:]
